@@ -274,9 +274,20 @@ def check(tier: str) -> Result:
             if t.kind == "bin" and t.args[0] == "+":
                 return terms(t.args[1]) + terms(t.args[2])
             return [t]
-        half_ = mk("bin", "//", N, mk("const", 2))
-        got = sorted(sorted(x.id for x in factors(tm_)) for tm_ in terms(idx))
-        want = sorted([sorted([face.id, mk("const", A_).id, half_.id]), sorted([depth.id, mk("const", A_).id]), [amount.id]])
+        from ..shapes import canon as _canon
+
+        def is_half_size(x):
+            """<this environment's cube size> // 2, however the environment reaches its generator's cube_size"""
+            x = _sc(x)
+            if not (x.kind == "bin" and x.args[0] == "//" and _sc(x.args[2]) is mk("const", 2)):
+                return False
+            y = _sc(x.args[1])
+            return y.kind == "attr" and _canon(vfg, y.args[1]) == _canon(vfg, "cube_size") and contains(y, ea.self_t)
+
+        def norm_f(x):
+            return "HALF" if is_half_size(x) else x.id
+        got = sorted(sorted(map(str, (norm_f(x) for x in factors(tm_)))) for tm_ in terms(idx))
+        want = sorted([sorted(map(str, [face.id, mk("const", A_).id, "HALF"])), sorted(map(str, [depth.id, mk("const", A_).id])), [str(amount.id)]])
         ok = got == want
         why = f"switch index {txt(idx, 6, 160)}; expected face*{A_}*(generator.cube_size//2) + depth*{A_} + amount"
         if not ok and any(x.kind == "bin" and x.args[0] == "//" and _sc(x.args[1]).kind == "const" for tm_ in terms(idx) for x in factors(tm_)):
